@@ -80,6 +80,11 @@ def strategies_for(n, variant):
         if variant == 7:
             # a first task that needs the whole 2-CPU worker, small successors
             ss = [[2, {"CPU": 2}]] if k == 0 else [[RT[k], {"CPU": 1}]]
+        if variant == 8:
+            # every task has a fast and a slow strategy of the same shape: a plan made
+            # earlier may have picked either, and `remaining_time` of a SCHEDULED task
+            # (the chosen runtime) differs from its slowest runtime
+            ss = [[1, {"CPU": 1}], [3, {"CPU": 1}]]
         out.append(ss)
     return out
 
@@ -100,6 +105,17 @@ def progress_patterns(n, edges, cluster_key, strategies, now):
     if n >= 3 and not any(j == 1 for _i, j in edges):
         # a second source that is already running next to a fresh first one
         pats["other_running"] = {NAMES[1]: ["running", now - 1, w0, 0]}
+    if n == 3 and sorted(edges) == [(0, 2), (1, 2)]:
+        # a join with one parent COMPLETED and the other SCHEDULED by an earlier plan
+        # (either way round, and with each of the scheduled parent's strategies): under
+        # retraction the scheduled parent may or may not be offered again, and the join
+        # is offered because the completed parent released the graph
+        for tag, sched, done in (("a", 0, 1), ("b", 1, 0)):
+            rtd = strategies[done][0][0]
+            for sidx in range(len(strategies[sched])):
+                pats[f"join_mixed_{tag}{sidx}"] = {
+                    NAMES[sched]: ["scheduled", now + 2, w0, sidx],
+                    NAMES[done]: ["completed", max(now - rtd, 0), w0, 0]}
     return pats
 
 
